@@ -173,7 +173,7 @@ func c05Key(c *Ctx, sx *symx.Ctx) {
 			}
 		})
 	}
-	r.Floor("O-1", "projection sites", nSites, 2)
+	r.Floor("O-1", "projection sites", nSites, 1)
 
 	// (b) the struct reaches Marshal -> Sum256 -> returned key
 	gk := c.P.Func("internal/cache", "SearchCache", "generateCacheKey")
@@ -428,6 +428,50 @@ func c05Invalidate(c *Ctx) {
 	for _, fn := range reachClosure(c, []*ssa.Function{inv}) {
 		if fn == clear {
 			reaches = true
+		}
+	}
+	// ... and unconditionally: along the chain every function calls the next one on every path
+	if reaches && clear != nil {
+		canReach := func(fn *ssa.Function) bool {
+			for _, g := range reachClosure(c, []*ssa.Function{fn}) {
+				if g == clear {
+					return true
+				}
+			}
+			return false
+		}
+		cur := inv
+		for depth := 0; cur != clear && depth < 8; depth++ {
+			var next *ssa.Function
+			var via []*ssa.Call
+			ssau.ForEachInstr(cur, false, func(in ssa.Instruction) {
+				if call, ok := in.(*ssa.Call); ok {
+					if cal := call.Common().StaticCallee(); cal != nil && c.P.IsRepoFunc(cal) && canReach(cal) {
+						next = cal
+						via = append(via, call)
+					}
+				}
+			})
+			if next == nil {
+				r.Unknown("O-3", load.FuncKey(cur)+"#clears-unconditionally", c.P.Pos(cur.Pos()), "the call that leads to LRUCache.Clear is not a static call")
+				break
+			}
+			eng := pathev.New(func(in ssa.Instruction) []string {
+				for _, v := range via {
+					if in == ssa.Instruction(v) {
+						return []string{"next"}
+					}
+				}
+				return nil
+			}, nil)
+			always := true
+			for _, m := range eng.Exits(cur) {
+				if !m.Get("next").Always() {
+					always = false
+				}
+			}
+			r.Check(always, "O-3", load.FuncKey(cur)+"#clears-unconditionally", c.P.Pos(cur.Pos()), "every path calls "+load.FuncKey(next), "some path through "+load.FuncKey(cur)+" skips the call to "+load.FuncKey(next)+" (for instance while the cache is disabled): entries computed on the old database survive an update and are served once the cache is re-enabled")
+			cur = next
 		}
 	}
 	r.Check(reaches && clear != nil, "O-3", "database.(*CachedDatabase).InvalidateCache#reaches-LRUCache.Clear", c.P.Pos(inv.Pos()), "InvalidateCache -> Manager.InvalidateAll -> SearchCache.Invalidate -> LRUCache.Clear", "InvalidateCache does not reach LRUCache.Clear in the call graph: invalidation leaves entries behind")
